@@ -13,7 +13,7 @@ CHECKS = {
  'C02': dict(level='exploration', tech='bounded exhaustive statement-sequence enumeration + differential co-execution of -O0 vs -O1..3',
    text="All statement sequences of length <= 3 over an alphabet that produces every instruction pair the peephole rules look at (plus all other executable families) are compiled at the four optimisation levels and co-executed from all enumerated inputs; final state and the ordered hardware-access trace must be identical. Differential, no reference model needed.", ref='4 C02'),
  'C03': dict(level='model_checking', tech='explicit enumeration of branch layouts x all 8 flag states on the real check_branches(), path equivalence against a label-level interpreter',
-   text="Finite state space (layout, flag state, program counter) explored completely: every branch kind, direction, byte distance 116..142, filler style and all 2- and 3-branch cascade arrangements; each is repaired by the real check_branches(), assembled with true encodings (range, labels, size) and executed from all 8 N/Z/C states, and must follow the path of the un-repaired code.", ref='4 C03'),
+   text="Finite state space (layout, flag state, program counter) explored completely: every branch kind, direction, byte distance 116..142, filler style, a far branch followed by a branch to another label, and all 2- and 3-branch cascade arrangements; each is repaired by the real check_branches(), assembled with true encodings (range, labels, size) and executed from all 8 N/Z/C states, and must follow the path of the un-repaired code.", ref='4 C03'),
  'C04': dict(level='exploration', tech='bounded exhaustive program enumeration + independent instruction encoder',
    text="For every accepted program of the executable corpus (all addressing modes x memory classes of family F9 included) the size reported by size_bytes() is compared with an independent encoding of the emitted text.", ref='4 C04'),
  'C07': dict(level='model_checking', tech='explicit-state BFS to a fixpoint over the real preprocessor conditional machine (hooked) against a reference state machine',
@@ -21,13 +21,13 @@ CHECKS = {
  'C13': dict(level='exploration', tech='bounded exhaustive program enumeration + independent assembler front end (mode table, symbol and label tables)',
    text="Every accepted program of the executable corpus plus label-stress programs (repeated and nested inlining, goto labels, long-branch repair inside inlined code) at -O0/-O1 must be accepted by an independent assembler front end: legal (mnemonic, mode) pair, all symbols defined, labels unique per function.", ref='4 C13'),
  'C05': dict(level='exploration', tech='exhaustive (program x hash seed x in-process history) enumeration in fresh processes with harness-controlled hash seeds',
-   text="Every source of nondeterminism the compiler has (std HashMap seeds, state left behind by an earlier compile() in the same process) is owned by the harness: a getrandom() shim supplies the hash seed, and each corpus program is compiled under every seed of the tier and after every other corpus program; the full compilation record must be byte-identical. The check proves on a probe map that the seeds change iteration order.", ref='4 C05'),
+   text="Every source of nondeterminism the compiler has (std HashMap seeds, state left behind by an earlier compile() in the same process) is owned by the harness: a getrandom() shim supplies the hash seed, and each corpus program (some with their own -D options, some defining the same macro name with different shapes) is compiled under every seed of the tier and after every other corpus program; the full compilation record must be byte-identical. The check proves on a probe map that the seeds change iteration order.", ref='4 C05'),
  'C06': dict(level='exploration', tech='bounded exhaustive enumeration of (prefix construct x error kind x placement) with a reference line map',
-   text="All combinations of 17 line-shifting prefix constructs (block comments, continuation lines, multi-line macros, conditionals, includes, nested includes) x 16 error kinds x 5 placements: the diagnostic must name the file, physical line and include chain computed by an independent line accounting; the preprocessor line map is checked against the reference on every line.", ref='4 C06'),
+   text="All combinations of 19 line-shifting prefix constructs (block comments, continuation lines, multi-line macros, conditionals, includes of C and assembler files with and without final newline, non-ASCII text) x 16 error kinds x 5 placements: the diagnostic must name the file, physical line and include chain computed by an independent line accounting; the preprocessor line map is checked against the reference on every line.", ref='4 C06'),
  'C08': dict(level='exploration', tech='bounded exhaustive enumeration of macro definition sets x use sites against a reference expander',
    text="20 definition sets (object-like chains, function-like macros with 1-3 parameters, parameters named like macros, nested invocations, redefinition, #undef, -D options) x all use-site fillers: the preprocessed text and the compiled constants must equal a reference expander written for the documented semantics.", ref='4 C08'),
  'C09': dict(level='exploration', tech='bounded exhaustive enumeration of literal atoms x places, decoded bytes compared with a reference decoder',
-   text="All atoms (every escape, quotes, comment markers and macro names inside literals, adjacent literals) x 18 places (initialisers, arguments, tables, asm(), around #include, after skipped #if regions that contain literals, three calls in one expression followed by another literal): the bytes that reach the variable table / emitted code must be the C decoding of the literal and nothing inside a literal may be treated as a comment, macro or directive.", ref='4 C09'),
+   text="All atoms (every escape, quotes, comment markers and macro names inside literals, adjacent literals) x 21 places (initialisers, arguments, tables, asm(), around #include, after skipped #if regions that contain literals, three calls in one expression followed by another literal, a literal continued after a backslash-newline, two calls with literals in a local initialiser, a character constant named like a macro): the bytes that reach the variable table / emitted code must be the C decoding of the literal and nothing inside a literal may be treated as a comment, macro or directive.", ref='4 C09'),
  'C10': dict(level='exploration', tech='bounded exhaustive enumeration of constant expressions x positions against a reference evaluator',
    text="All constant expressions to the depth of the tier over the full operator set, in every position where the compiler folds (initialisers, array sizes, aligned(), asm size, statements, conditions): the folded value must equal a reference evaluator with C semantics, be the same in every position and the same as the run-time evaluation on the emulator; expressions outside the representable range must be rejected.", ref='4 C10'),
  'C11': dict(level='exploration', tech='bounded exhaustive enumeration of layout decorations x token gaps, record compared with the undecorated program',
@@ -39,7 +39,7 @@ CHECKS = {
  'C15': dict(level='exploration', tech='bounded exhaustive enumeration of (program x rewrite site), differential co-execution of the two spellings',
    text="Every program of the executable corpus x every site where one of 7 meaning-preserving rewrites applies (+ template pairs for switch/if-chain, register/constant index, call/body): both spellings are compiled and executed from every enumerated input and must leave the same final state. Differential: no expected value is written by hand.", ref='4 C15'),
  'C16': dict(level='fault_enumeration', tech='exhaustive single-fault enumeration (token deletion, replacement, duplication, truncation at every position) over a corpus, in isolated processes',
-   text="Every single-token deletion, duplication, swap and replacement (40 replacement tokens) and every truncation point of 33 corpus programs, layout variants of each program (last lines joined, no final newline) under the listing option, plus ~330 directed hostile inputs each under two option sets: compile() must return Ok or a located error; a panic, abort, hang (watchdog) or memory blow-up (address-space limit) is a violation, attributed to the innermost compiler function.", ref='4 C16'),
+   text="Every single-token deletion, duplication, swap and replacement (40 replacement tokens) and every truncation point of 33 corpus programs, layout variants of each program (last lines joined, no final newline) under the listing option, plus ~400 directed hostile inputs each under two option sets, plus every valid program of the shared executable corpus (compile only): compile() must return Ok or a located error; a panic, abort, hang (watchdog) or memory blow-up (address-space limit) is a violation, attributed to the innermost compiler function.", ref='4 C16'),
  'C17': dict(level='exploration', tech='bounded exhaustive enumeration of (statement x split-port placement), execution on an emulator with a split-port RAM fault model',
    text="All 74 statements (thorough: pairs) x 15 subsets of variables placed in split-port RAM x 3 cartridge schemes at -O0/-O1 are executed on the emulator whose RAM model faults on a read of a write port, a write to a read port and any read-modify-write; results are compared with the same program using ordinary variables.", ref='4 C17'),
  'C18': dict(level='exploration', tech='bounded exhaustive enumeration of csleep counts x surrounding code, cycle-exact measurement on the emulator',
